@@ -13,7 +13,8 @@ MISMATCH_FN = "mismatch current_cfg"
 VIOLATES_FN = "violates"
 RULE = ("case = history of 3-12 transactions on a fresh chain, each delivered in its own block through "
         "BeginBlock/DeliverTx/EndBlock/Commit: regular Ethereum txs (1-3 MsgEthereumTx, nonce ok / gap / replay, gas "
-        "below intrinsic, leftover gas, tampered signature, extra non-eth message, Cosmos signature attached); Cosmos txs "
+        "below intrinsic, leftover gas, tampered signature, extra non-eth message, Cosmos signature attached); eth leaves "
+        "whose unsigned From field names the tx signer / an exec grantee / the contract; Cosmos txs "
         "whose message trees (depth <= 5: authz MsgExec with self/grant authority, reflect.wasm Stargate dispatch, gov "
         "MsgSubmitProposal) carry a MsgEthereumTx, MsgGrant for the eth type, sends; Cosmos txs signed with an "
         "eth_secp256k1 key (probe of Hsig); bare MsgEthereumTx without extension option; unknown extension option; "
@@ -41,6 +42,8 @@ def _tree(n):
     k = n["k"]
     if k == "eth":
         frm = 29 if n.get("bad") else n.get("from", 0)
+        if n.get("as") is not None:
+            return "Leaf (EthTxAs %d %d %d %s (1)%%Z (1)%%Z)" % (n["as"], frm, n.get("nonce", 0), _z(n.get("gas", 0)))
         return "Leaf (EthTx %d %d %s (1)%%Z (1)%%Z)" % (frm, n.get("nonce", 0), _z(n.get("gas", 0)))
     if k == "send":
         return "Leaf (Send %d)" % n.get("from", 0)
@@ -171,6 +174,10 @@ def _eth(frm, nonce, gas=21000):
     return {"k": "eth", "from": frm, "nonce": nonce, "gas": gas}
 
 
+def _eth_as(claimed, frm, nonce, gas=50000):
+    return {"k": "eth", "from": frm, "nonce": nonce, "gas": gas, "as": claimed}
+
+
 def _ex(g, *c):
     return {"k": "exec", "g": g, "c": list(c)}
 
@@ -207,6 +214,10 @@ SWEEP_INPUTS = [
     {"txs": [_evm(_eth(20, 0)), {"signer": -1, "key": "none", "msgs": [_eth(20, 0, 50000)]}]},
     {"txs": [_evm(_eth(20, 0)), {"ext": "other", "signer": -1, "key": "none", "msgs": [_eth(20, 0, 50000)]}]},
     {"txs": [_ek(20, _ex(20, {"k": "grant", "from": 20, "to": 1, "t": "eth"})), _cos(1, _ex(1, _ex(1, _eth(20, 0, 50000))))]},
+    {"txs": [_evm(_eth(20, 0)), _cos(1, _ex(1, _ex(1, _eth_as(1, 20, 0))))]},
+    {"txs": [_evm(_eth(20, 0)), _cos(0, _wa(_ex(10, _eth_as(10, 20, 0))))]},
+    {"txs": [_evm(_eth(20, 0)), _cos(1, _ex(1, _eth_as(1, 20, 0)))]},
+    {"txs": [_evm(_eth(20, 0)), _cos(1, _eth_as(1, 20, 0))]},
 ]
 
 
